@@ -29,7 +29,7 @@ WORKERS = {"quick": 6, "thorough": 16}
 MIN_NONTRIVIAL = {"quick": 200, "thorough": 1500}
 REQUIRED_FUNCTIONS = ["program.py:BlackbirdProgram.serialize", "listener.py:RegRefTransform.__init__", "listener.py:BlackbirdListener.exitStatement", "program.py:_format_value"]
 FUNCTIONS = REQUIRED_FUNCTIONS
-REQUIRED_TAGS = ["param-multi", "regref-multi", "include>=3-modes", "symbolic-include-argument", "regref-multi-in-included-program", "tdm-parameter-valued-variable"]
+REQUIRED_TAGS = ["param-multi", "regref-multi", "include>=3-modes", "symbolic-include-argument", "regref-multi-in-included-program", "tdm-parameter-valued-variable", "include-call-positional"]
 ASSUMPTIONS = ["the documented freedom (order in which a register transform lists its registers) is canonicalised: sorted register set + function values fed in the listed order"]
 
 
@@ -52,6 +52,29 @@ def make_script(rng, g):
         # include tree
         rr = rng.random() < 0.4
         files, main_path, info = c07.build(rng, g, symbolic_args=rng.random() < 0.4, regref_args=rr)
+        extra_ = set()
+        if rng.random() < 0.3:
+            # calls the language refuses (or might one day accept): positional values for an included template, wrong
+            # keywords, wrong arity - whatever the outcome is, it must be the same under every hash seed
+            subs_ = {s_[0]: s_ for s_ in info["subs"]}
+            ls_ = files[main_path].split("\n")
+            idx_ = [i_ for i_, ln_ in enumerate(ls_) if ln_.split("(")[0].split(" ")[0] in subs_ and len(subs_[ln_.split("(")[0].split(" ")[0]][3] or []) >= 2 and "|" in ln_]
+            if idx_ and rng.random() < 0.7:
+                i_ = rng.choice(idx_)
+                nm_ = ls_[i_].split("(")[0].split(" ")[0]
+                vals_ = ["0.25", "0.5", "0.75", "1.25", "2", "3.5", "-1", "4"]
+                rng.shuffle(vals_)
+                ls_[i_] = ls_[i_][: len(ls_[i_]) - len(ls_[i_].lstrip())] + "%s(%s) |%s" % (nm_, ", ".join(vals_[: len(subs_[nm_][3])]), ls_[i_].rsplit("|", 1)[1])
+                files = dict(files)
+                files[main_path] = "\n".join(ls_)
+                extra_ = {"include-call-positional"}
+            else:
+                nv_ = c07.negative_variant(rng, files, main_path, info)
+                if nv_:
+                    files = nv_[0]
+                    extra_ = {"include-call-faulty"}
+        if extra_:
+            return ("tree", files, main_path, extra_ | {"include"})
         return ("tree", files, main_path, ({"include>=3-modes"} if any(s[2] >= 3 for s in info["subs"]) else {"include"}) | (info["tags"] & {"symbolic-include-argument"})
                 | ({"regref-multi-in-included-program"} if rr else set()))
     if c < 0.33:
